@@ -81,7 +81,7 @@ func calleeSet(fn *ssa.Function) []string {
 				return
 			}
 			if f := calleeOf(call); f != nil {
-				set[rawqname(f)] = true
+				set[qname(f)] = true // reference names for callees already resolved
 			}
 		})
 	}
@@ -244,74 +244,81 @@ func (c *Ctx) resolveRenames(path string) {
 		known[fp.Rel+"."+fp.Name] = true
 		byPkg[fp.Rel] = append(byPkg[fp.Rel], fp)
 	}
-	for rel, fps := range byPkg {
-		if c.SSA[modPath+"/"+rel] == nil {
-			continue
-		}
-		present := map[string]*ssa.Function{}
-		var fresh []*ssa.Function // functions whose name the reference does not know
-		for _, f := range c.topLevelFuncs(rel) {
-			n := anchorName(f)
-			present[n] = f
-			if unexported(n) && !known[rel+"."+n] {
-				fresh = append(fresh, f)
-			}
-		}
-		if len(fresh) == 0 {
-			continue
-		}
-		taken := map[*ssa.Function]bool{}
-		for _, fp := range fps {
-			if present[fp.Name] != nil {
+	for round := 0; round < 3; round++ {
+		progress := false
+		for rel, fps := range byPkg {
+			if c.SSA[modPath+"/"+rel] == nil {
 				continue
 			}
-			// same receiver type required for methods
-			recv := ""
-			if i := strings.IndexByte(fp.Name, '.'); i >= 0 {
-				recv = fp.Name[:i]
+			present := map[string]*ssa.Function{}
+			var fresh []*ssa.Function // functions whose name the reference does not know
+			for _, f := range c.topLevelFuncs(rel) {
+				n := anchorName(f)
+				present[n] = f
+				if unexported(n) && !known[rel+"."+n] && qnameAlias[rawQName(f)] == "" {
+					fresh = append(fresh, f)
+				}
 			}
-			want := map[string]bool{}
-			for _, k := range fp.Callees {
-				want[k] = true
+			if len(fresh) == 0 {
+				continue
 			}
-			var best *ssa.Function
-			bestScore, second := -1.0, -1.0
-			for _, f := range fresh {
-				if taken[f] || sigString(f) != fp.Sig {
+			taken := map[*ssa.Function]bool{}
+			for _, fp := range fps {
+				if present[fp.Name] != nil || c.renamed[rel+"."+fp.Name] != nil {
 					continue
 				}
-				fr := ""
-				if n := anchorName(f); strings.IndexByte(n, '.') >= 0 {
-					fr = n[:strings.IndexByte(n, '.')]
+				// same receiver type required for methods
+				recv := ""
+				if i := strings.IndexByte(fp.Name, '.'); i >= 0 {
+					recv = fp.Name[:i]
 				}
-				if fr != recv {
-					continue
+				want := map[string]bool{}
+				for _, k := range fp.Callees {
+					want[k] = true
 				}
-				got := calleeSet(f)
-				inter := 0
-				for _, k := range got {
-					if want[k] {
-						inter++
+				var best *ssa.Function
+				bestScore, second := -1.0, -1.0
+				for _, f := range fresh {
+					if taken[f] || sigString(f) != fp.Sig {
+						continue
+					}
+					fr := ""
+					if n := anchorName(f); strings.IndexByte(n, '.') >= 0 {
+						fr = n[:strings.IndexByte(n, '.')]
+					}
+					if fr != recv {
+						continue
+					}
+					got := calleeSet(f)
+					inter := 0
+					for _, k := range got {
+						if want[k] {
+							inter++
+						}
+					}
+					union := len(want) + len(got) - inter
+					score := 1.0
+					if union > 0 {
+						score = float64(inter) / float64(union)
+					}
+					if score > bestScore {
+						best, second, bestScore = f, bestScore, score
+					} else if score > second {
+						second = score
 					}
 				}
-				union := len(want) + len(got) - inter
-				score := 1.0
-				if union > 0 {
-					score = float64(inter) / float64(union)
-				}
-				if score > bestScore {
-					best, second, bestScore = f, bestScore, score
-				} else if score > second {
-					second = score
+				if best != nil && bestScore >= 0.5 && bestScore-second >= 0.15 {
+					taken[best] = true
+					c.renamed[rel+"."+fp.Name] = best
+					old := modPath + "/" + rel + "." + fp.Name
+					qnameAlias[rawQName(best)] = old
+					c.RenameNotes = append(c.RenameNotes, "anchor "+rel+"."+fp.Name+" resolved to renamed function "+anchorName(best))
+					progress = true
 				}
 			}
-			if best != nil && bestScore >= 0.5 && bestScore-second >= 0.15 {
-				taken[best] = true
-				c.renamed[rel+"."+fp.Name] = best
-				old := modPath + "/" + rel + "." + fp.Name
-				qnameAlias[rawQName(best)] = old
-				c.RenameNotes = append(c.RenameNotes, "anchor "+rel+"."+fp.Name+" resolved to renamed function "+anchorName(best))
-			}
+		}
+		if !progress {
+			break
 		}
 	}
 }
